@@ -19,7 +19,6 @@ package main
 
 import (
 	"bufio"
-	"context"
 	"crypto/sha256"
 	"encoding/hex"
 	"fmt"
@@ -346,7 +345,7 @@ func c13Iso(o *c13Out, progIdx, n int, round int) {
 	go func() { wg.Wait(); close(done) }()
 	select {
 	case <-done:
-	case <-time.After(60 * time.Second):
+	case <-hangAfter(60 * time.Second):
 		o.crash("iso-hang", fmt.Sprintf("p%d n%d", progIdx, n))
 		atomic.StoreInt32(&stop, 1)
 		return
@@ -492,7 +491,7 @@ func c13RunRole(proto *lua.FunctionProto, setup func(L *lua.LState), withCtx boo
 	L := lua.NewState()
 	defer L.Close()
 	if withCtx {
-		ctx, cancel := context.WithTimeout(context.Background(), 50*time.Second)
+		ctx, cancel := hangCtx(50 * time.Second)
 		defer cancel()
 		L.SetContext(ctx)
 	}
@@ -574,7 +573,7 @@ func c13Chan(o *c13Out, scn c13ChanScn, protos [3]*lua.FunctionProto) {
 	}()
 	select {
 	case <-done:
-	case <-time.After(60 * time.Second):
+	case <-hangAfter(60 * time.Second):
 		o.crash("chan-hang", scn.String())
 		return
 	}
